@@ -58,10 +58,10 @@ theorem shape_sync (ndim : Nat) (ops : List ShapeOp) (s : ShapeState) :
 
 /-- what was set last is what is reported: setting `array_shape` to `v` makes `pixel_shape` its
     reverse, and vice versa -/
-theorem set_array_then_pixel (ndim : Nat) (s : ShapeState) (v : List Nat) :
+theorem set_array_then_pixel (ndim : Nat) (s : ShapeState) (v : List Nat) (h : v.length = ndim) :
     pixelShape (shapeStepTotal ndim s (.setArrayShape (some v))) = some v.reverse ∧
       arrayShape (shapeStepTotal ndim s (.setArrayShape (some v))) = some v := by
-  simp [shapeStepTotal, shapeStep, pixelShape, arrayShape]
+  simp [shapeStepTotal, shapeStep, pixelShape, arrayShape, h]
 
 theorem set_pixel_then_array (ndim : Nat) (s : ShapeState) (v : List Nat) (h : v.length = ndim) :
     pixelShape (shapeStepTotal ndim s (.setPixelShape (some v))) = some v ∧
@@ -74,20 +74,45 @@ theorem pixel_shape_wrong_len_rejected_unchanged (ndim : Nat) (s : ShapeState) (
       shapeStepTotal ndim s (.setPixelShape (some v)) = s := by
   simp [shapeStepTotal, shapeStep, h]
 
-/-- every stored pixel shape has the right length, as long as only `pixel_shape` is used to set it
-    (`array_shape` has no length check — outside the property, recorded in DESIGN.md) -/
-theorem pixel_shape_len_invariant (ndim : Nat) (s : ShapeState) (v : Option (List Nat))
+/-- **array_shape_wrong_len_rejected_unchanged.** The same through the other property. -/
+theorem array_shape_wrong_len_rejected_unchanged (ndim : Nat) (s : ShapeState) (v : List Nat) (h : v.length ≠ ndim) :
+    shapeStep ndim s (.setArrayShape (some v)) = .error .valueErr ∧
+      shapeStepTotal ndim s (.setArrayShape (some v)) = s := by
+  simp [shapeStepTotal, shapeStep, h]
+
+/-- one assignment (through either property, accepted or refused) keeps "the stored shape has the right length" -/
+theorem pixel_shape_len_step (ndim : Nat) (s : ShapeState) (op : ShapeOp)
     (hs : ∀ l, s = some l → l.length = ndim) :
-    ∀ l, shapeStepTotal ndim s (.setPixelShape v) = some l → l.length = ndim := by
+    ∀ l, shapeStepTotal ndim s op = some l → l.length = ndim := by
   intro l
-  cases v with
-  | none => simp [shapeStepTotal, shapeStep]
-  | some v =>
-    by_cases h : v.length = ndim
-    · simp only [shapeStepTotal, shapeStep, h, if_true]
-      intro hl; injection hl with hl; subst hl; exact h
-    · simp only [shapeStepTotal, shapeStep, h, if_false]
-      exact hs l
+  cases op with
+  | setPixelShape v =>
+    cases v with
+    | none => simp [shapeStepTotal, shapeStep]
+    | some v =>
+      by_cases h : v.length = ndim
+      · simp only [shapeStepTotal, shapeStep, h, if_true]
+        intro hl; injection hl with hl; subst hl; exact h
+      · simp only [shapeStepTotal, shapeStep, h, if_false]
+        exact hs l
+  | setArrayShape v =>
+    cases v with
+    | none => simp [shapeStepTotal, shapeStep]
+    | some v =>
+      by_cases h : v.length = ndim
+      · simp only [shapeStepTotal, shapeStep, h, if_true]
+        intro hl; injection hl with hl; subst hl; simpa using h
+      · simp only [shapeStepTotal, shapeStep, h, if_false]
+        exact hs l
+
+/-- **pixel_shape_len_invariant.** After any history of assignments through `pixel_shape` and `array_shape` (valid or refused,
+    in any order) a stored pixel shape has one entry per pixel axis. -/
+theorem pixel_shape_len_invariant (ndim : Nat) (ops : List ShapeOp) (s : ShapeState)
+    (hs : ∀ l, s = some l → l.length = ndim) :
+    ∀ l, ops.foldl (shapeStepTotal ndim) s = some l → l.length = ndim := by
+  induction ops generalizing s with
+  | nil => simpa using hs
+  | cons op ops ih => exact ih _ (pixel_shape_len_step ndim s op hs)
 
 end Gwcs.Api
 
